@@ -36,6 +36,13 @@ fn replay_case(idx: usize, case: &Value) -> Value {
                 params.insert("p".to_string(), params::value(v).0);
             }
         }
+        if let Some(v) = case["value2"].as_str() {
+            if v.starts_with("key_") {
+                scope_params.insert("q".to_string(), params::key_of(v));
+            } else {
+                params.insert("q".to_string(), params::value(v).0);
+            }
+        }
         let e = |e: biscuit_auth::error::Token| format!("{e:?}");
         if holder == "authorizer" {
             authorizer_bytes(AuthorizerBuilder::new().code_with_params(src, params, scope_params).map_err(e)?)
